@@ -1,7 +1,7 @@
 """C16: all differential operators agree with one ground-truth Jacobian."""
 from harness import common as C
 
-FILES = ["Operators/Operators.v", "Operators/Run16.v", "Operators/PolyDeriv.v", "Operators/Argnum.v", "Operators/RunArg.v", "Props/C16.v"]
+FILES = ["Operators/Operators.v", "Operators/Run16.v", "Operators/PolyDeriv.v", "Operators/Argnum.v", "Operators/ArgnumTie.v", "Operators/RunArg.v", "Props/C16.v"]
 RULE = ("random degree-2 polynomial maps Z^in -> Z^out with integer coefficients, in/out ranks 0..3 (incl. 0-d), one "
         "operator per case (jacobian, grad, elementwise_grad, deriv, hessian, make_hvp/hessian_tensor_product, "
         "tensor_jacobian_product, make_jvp, make_jvp_reversemode, make_ggnvp, value_and_grad, grad_and_aux): exact "
@@ -91,7 +91,7 @@ def replay(rp):
     return 1
 
 
-TECHNIQUE = "Coq theorems: each operator, defined through the engine contract, equals the stated contraction of one abstract Jacobian for all sizes over any commutative ring; exact Taylor identity proving the polynomial ground truth; argument-selection algebra proved for every arity; exact correspondence against integer polynomial maps and of util.subvals/unary_to_nary against the model"
+TECHNIQUE = "Coq theorems: each operator, defined through the engine contract, equals the stated contraction of one abstract Jacobian for all sizes over any commutative ring; exact Taylor identity proving the polynomial ground truth; argument-selection algebra proved for every arity and proved equal to definitions translated from util.subvals / wrap_util.unary_to_nary on every run (gen/GenArgnum.v); exact correspondence against integer polynomial maps and of util.subvals/unary_to_nary against the model"
 DESIGN_REF = "DESIGN.md 4.16"
 LEVEL_TEXT = ("Proved for all output/input sizes and any Jacobian: jacobian entries and shape, grad, elementwise_grad, "
               "reverse-mode JVP = forward JVP, tensor-Jacobian product; for every quadratic polynomial map the formal Jacobian/Hessian are "
